@@ -1495,3 +1495,149 @@ Proof.
   intros Hw Hh H0 H. destruct (pinit_root_normal P w s0 Hw H0) as [H1 H2].
   eapply pipeline_paths; eauto.
 Qed.
+
+(* ================================================================== any spelling of the root *)
+Lemma join_normal root n : valid_name n = true -> join root n <> [] /\ last_is_sep (join root n) = false.
+Proof.
+  intros Hn. assert (Hc : exists c n', n = c :: n' /\ N.eqb c sep = false).
+  { destruct n as [|c n']; [discriminate|]. exists c, n'. split; [reflexivity|].
+    apply (valid_nosep _ Hn). left. reflexivity. }
+  destruct Hc as [c [n' [-> Hc]]]. unfold join. rewrite Hc.
+  destruct root as [|r0 root'].
+  - split; [discriminate|]. change (c :: n') with ([] ++ c :: n'). now apply last_is_sep_app_name.
+  - destruct (last_is_sep (r0 :: root')).
+    + split; [discriminate | now apply last_is_sep_app_name].
+    + split; [discriminate|]. change ((r0 :: root') ++ sep :: c :: n') with ((r0 :: root') ++ [sep] ++ c :: n').
+      rewrite app_assoc. now apply last_is_sep_app_name.
+Qed.
+
+Lemma jbelow_rooted root p :
+  jbelow root p <-> exists n, valid_name n = true /\ rooted (join root n) p.
+Proof.
+  split.
+  - intros [n [rel [Hn [Hrel ->]]]]. exists n. split; [exact Hn|]. exists rel. split; [exact Hrel|].
+    cbn. destruct (join_normal root n Hn) as [H1 H2]. now apply joins_suffix.
+  - intros [n [Hn [rel [Hrel ->]]]]. exists n, rel. repeat split; try assumption.
+    cbn. destruct (join_normal root n Hn) as [H1 H2]. symmetry. now apply (joins_suffix (join root n)).
+Qed.
+
+Lemma jbelow_jrooted root p : jbelow root p -> jrooted root p.
+Proof.
+  intros [n [rel [Hn [Hrel ->]]]]. exists (n :: rel). split; [|reflexivity]. cbn. now rewrite Hn, Hrel.
+Qed.
+
+Lemma rooted_top_jrooted root n p : valid_name n = true -> rooted (join root n) p -> jrooted root p.
+Proof. intros Hn Hp. apply jbelow_jrooted. apply jbelow_rooted. eauto. Qed.
+
+Lemma dirname_head_name h n :
+  last_is_sep h = true -> nosep n -> dirname (h ++ n) = match rstrip_sep h with [] => h | y => y end.
+Proof.
+  intros Hh Hn. unfold dirname. rewrite rev_app_distr.
+  unfold last_is_sep in Hh. destruct (rev h) as [|c r] eqn:E; [discriminate|].
+  apply N.eqb_eq in Hh. subst c.
+  rewrite drop_to_sep_rev_app by now apply nosep_rev.
+  rewrite <- E, rev_involutive. reflexivity.
+Qed.
+
+Lemma dirname_top root n : root <> [] -> valid_name n = true -> dirname (join root n) = norm_root root.
+Proof.
+  intros Hr Hn. unfold norm_root.
+  assert (Hj : join root n = if last_is_sep root then root ++ n else root ++ sep :: n).
+  { unfold join. destruct n as [|c n']; [discriminate|].
+    rewrite (valid_nosep _ Hn c (or_introl eq_refl)). destruct root; [contradiction | reflexivity]. }
+  rewrite Hj. destruct (last_is_sep root) eqn:E.
+  - apply dirname_head_name; [exact E | now apply valid_nosep].
+  - apply dirname_app_name; [exact Hr | exact E | now apply valid_nosep].
+Qed.
+
+Lemma emit_single_noparent_shape full rec wp ct x :
+  noparent (r_mask x) = true ->
+  forall e, In e (fst (emit_single full rec wp ct x)) -> ev_src e = r_path x /\ ev_dest e = [].
+Proof.
+  intros Hnp e Hin. unfold noparent in Hnp.
+  apply andb_true_iff in Hnp as [Hnp H5]. apply andb_true_iff in Hnp as [Hnp H4].
+  apply andb_true_iff in Hnp as [Hnp H3]. apply andb_true_iff in Hnp as [H1 H2].
+  apply negb_true_iff in H1, H2, H3, H4.
+  unfold emit_single in Hin. rewrite H1, H2, H3, H4 in Hin. cbn [orb andb] in Hin.
+  destruct (is_attrib (r_mask x) || is_modify (r_mask x)).
+  { destruct Hin as [<-|[]]. split; reflexivity. }
+  destruct (is_delete_self (r_mask x) && beqb (r_path x) wp).
+  { destruct Hin as [<-|[]]. split; reflexivity. }
+  destruct (is_directory (r_mask x)); cbn [negb] in Hin; [contradiction|].
+  rewrite orb_false_r in H5. apply negb_true_iff in H5. rewrite H5 in Hin.
+  destruct (is_open (r_mask x)); [destruct Hin as [<-|[]]; split; reflexivity|].
+  destruct (is_close_nowrite (r_mask x)); [destruct Hin as [<-|[]]; split; reflexivity | contradiction].
+Qed.
+
+Section AnyRoot.
+  Variable root : bytes.
+  Hypothesis Hne : root <> [].
+
+  Lemma roe_top n p : valid_name n = true -> roe (join root n) p -> jpath_ok root p.
+  Proof. intros Hn [->|H]; [left; reflexivity | right; left; eapply rooted_top_jrooted; eauto]. Qed.
+
+  Definition jev_ok (e : nevent) : Prop := jpath_ok root (ev_src e) /\ jpath_ok root (ev_dest e).
+
+  Definition jitem_strict (it : Emitter.item) : Prop :=
+    match it with
+    | Single x => jbelow root (r_path x) \/ (jrooted root (r_path x) /\ noparent (r_mask x) = true)
+    | Pair f t => jbelow root (r_path f) /\ jbelow root (r_path t)
+    end.
+
+  Lemma parent_top n p : valid_name n = true -> rooted (join root n) p -> jev_ok (parent_modified p).
+  Proof.
+    intros Hn Hp. destruct (join_normal root n Hn) as [H1 H2].
+    destruct (parent_modified_ok _ H1 H2 p Hp) as [[Hs Hd]| ->].
+    - split; eapply roe_top; eauto.
+    - split; [right; right; cbn; now apply dirname_top | left; reflexivity].
+  Qed.
+
+  Theorem emit_paths_any_root full rec wp ct it :
+    jitem_strict it -> (forall p, wf_tree (ct p) = true) ->
+    forall e, In e (fst (emit full rec wp ct it)) -> jev_ok e.
+  Proof.
+    intros Hit Hc e Hin. destruct it as [x|f t]; cbn [jitem_strict] in Hit.
+    - destruct Hit as [Hb|[Hr Hnp]].
+      + apply jbelow_rooted in Hb as [n [Hn Hp]]. destruct (join_normal root n Hn) as [H1 H2].
+        eapply (emit_paths (join root n) H1 H2 full rec wp ct (Single x)) in Hin; [| |exact Hc].
+        * destruct Hin as [[Hs Hd]|[-> _]]; [split; eapply roe_top; eauto|].
+          eapply parent_top; [exact Hn | now apply rooted_root].
+        * intros r [<-|[]]. exact Hp.
+      + cbn [emit] in Hin. destruct (emit_single_noparent_shape full rec wp ct x Hnp e Hin) as [Hs Hd].
+        split; [rewrite Hs; right; left; exact Hr | rewrite Hd; left; reflexivity].
+    - destruct Hit as [Hf Ht].
+      apply jbelow_rooted in Hf as [nf [Hnf Hpf]]. apply jbelow_rooted in Ht as [nt [Hnt Hpt]].
+      destruct (join_normal root nf Hnf) as [F1 F2]. destruct (join_normal root nt Hnt) as [T1 T2].
+      cbn [emit] in Hin. unfold emit_pair in Hin. cbn [fst In] in Hin.
+      destruct Hin as [<-|[<-|[<-|Hin]]].
+      + split; right; left; cbn; [exact (rooted_top_jrooted root nf _ Hnf Hpf) | exact (rooted_top_jrooted root nt _ Hnt Hpt)].
+      + exact (parent_top nf _ Hnf Hpf).
+      + exact (parent_top nt _ Hnt Hpt).
+      + destruct (is_directory (r_mask f) && rec); [|contradiction].
+        unfold sub_moved in Hin.
+        rewrite (sub_moved_correct (r_path f) (r_path t) (rooted_ne _ F1 _ Hpf) (rooted_ne _ T1 _ Hpt)
+                                   (rooted_last _ T2 _ Hpt) _ (Hc _)) in Hin.
+        rewrite map_map in Hin. apply in_map_iff in Hin as [[k q] [<- Hq]].
+        apply (desc_valid _ [] (k, q) (Hc _) eq_refl) in Hq. cbn [snd] in Hq.
+        unfold expect_moved. cbn [fst snd].
+        split; right; left; cbn;
+          [apply (rooted_top_jrooted root nf _ Hnf) | apply (rooted_top_jrooted root nt _ Hnt)]; now apply rooted_app.
+  Qed.
+End AnyRoot.
+
+(* ================================================================== data of the non-vacuity examples *)
+Definition rt_ : bytes := [47; 119]%N.                (* "/w" *)
+Definition eacute_ : bytes := [195; 169]%N.           (* "é" in UTF-8 *)
+Definition xff_ : bytes := [255]%N.                   (* b"\xff": undecodable *)
+Definition zhong_ : bytes := [228; 184; 173]%N.       (* "中" *)
+
+Definition P_ : pcfg :=
+  {| pc_reader := {| c_recursive := true; c_mask := WATCHDOG_ALL; c_root := rt_; c_fix_ignored := true;
+                     c_fix_movein := true; c_fix_simulate := true; c_faults := [] |};
+     pc_full := false; pc_filter := None; pc_delay := 5 |}.
+Definition w_ : world := {| w_fs := [{| f_path := rt_; f_ino := 1; f_dir := true |}]; w_next_ino := 2 |}.
+Definition h_ : list action :=
+  [AOp (Mkdir (rt_ ++ relsuffix [eacute_])); AOp (Touch (rt_ ++ relsuffix [eacute_; xff_])); ARead 10;
+   AOp (Rename (rt_ ++ relsuffix [eacute_]) (rt_ ++ relsuffix [zhong_])); ARead 10; ATick 100;
+   AEmit; AEmit; AEmit; AEmit].
+
